@@ -1,0 +1,22 @@
+//go:build verif
+
+// Contracts for package moss (KV store adapter; read by /verif/gocv; comment-only effect with the
+// verif tag off).
+
+package moss
+
+// ---------------------------------------------------------------------------
+// C15: the end key of a prefix iteration is the least byte string above every key with the prefix
+// ---------------------------------------------------------------------------
+
+// incrementBytes(in): nil exactly when in consists of 0xff bytes only (or is empty): then no key is
+// above the prefix range; otherwise a fresh string of the same length that agrees with in before
+// the last byte p that is not 0xff, has in[p]+1 at p and zeros after p.
+//@ func incrementBytes
+//@   props C15
+//@   mode bv
+//@   ensures implies(result == nil, forall(k, 0, len(in), in[k] == 255))
+//@   ensures implies(result != nil, fresh(result) && len(result) == len(in) && exists(p, 0, len(in), in[p] != 255 && result[p] == in[p] + 1 && forall(k, 0, p, result[k] == in[k]) && forall(k, p+1, len(in), in[k] == 255 && result[k] == 0), i))
+//@   ensures implies(exists(k, 0, len(in), in[k] != 255), result != nil)
+//@   loop 0: invariant -1 <= i && i < len(rv) && len(rv) == len(in) && fresh(rv) && forall(k, 0, i+1, rv[k] == in[k]) && forall(k, i+1, len(in), in[k] == 255 && rv[k] == 0)
+//@   loop 0: decreases i + 1
